@@ -118,6 +118,7 @@ int main(int argc, char ** argv)
    verif::Result res; res.harness = "C19_threadpool";
    CompleteSetupSystem css;
    schedx::Options opt; opt.bound = 2;
+   opt.yieldOnUnlock = true;   // a lock release is a visible operation (see C11)
    if (args.kv.count("bound")) opt.bound = atoi(args.kv["bound"].c_str());
    if (!args.replay.empty()) {
       verif::ReplayDoc d; if (!d.Load(args.replay)) { fprintf(stderr, "cannot read %s\n", args.replay.c_str()); return 3; }
